@@ -112,6 +112,10 @@ USED = {
 }
 AIO_QUICK_SKIP = ("string", "env-flat", "default-config-file", "config-arg", "object:nodefaults", "argv-json")
 USED_QUICK_SKIP = ("all-in-one", "box", "nested-containers")  # quick: the three most expensive parsers
+# quick: the `+`-suffixed foreign names go without env-flat (a group that holds a foreign key cannot be spread over
+# per-leaf variables: the variable that carries the key has the same text as in env-json) and without
+# object:nodefaults (that channel exists for the required keys; unknown keys are looked up the same way)
+SUFFIXED_QUICK_SKIP = ("env-flat", "object:nodefaults")
 
 # node kinds (label@context of foreign-key positions, kind@label of required keys) that every run must hit
 REQUIRED_FOREIGN_KINDS = [
@@ -455,17 +459,23 @@ def plan(ctx):
             else:
                 related = True
             every = not ctx.quick and shape != "all-in-one"
-            # the `+`-suffixed names (append suffix on a name that is no list-typed key of the node): quick in the bases
-            # with every key of the single-kind shapes (the nodes of a required-only base are a subset of the nodes of
-            # the full base of the same variant); thorough wherever the spelling neighbours are explored, in the bases
-            # with every key one defined name per KIND of non-list key of the node
-            suffixed = related and (not ctx.quick or mode == "full")
+            # the `+`-suffixed names (append suffix on a name that is no list-typed key of the node), wherever the
+            # spelling neighbours are explored.  quick: the never-defined name (`zzq+`) in the bases with every key (the
+            # nodes of a required-only base are a subset of the nodes of the full base of the same variant; the name
+            # is present in neither), the defined non-list name (`yaw+`) in every base (its base key is present in one
+            # and absent in the other); both without the channels SUFFIXED_QUICK_SKIP.  thorough: every base, every
+            # channel, and in the bases with every key one defined name per KIND of non-list key of the node
             muts = S.mutations(
                 schema, cfg, subpath, rich=not ctx.quick, values=values, related=related, related_every=every,
-                suffixed=suffixed, suffixed_every=every and mode == "full",
+                suffixed=related, suffixed_every=every and mode == "full",
             )
+            if ctx.quick and mode != "full":
+                muts = [m for m in muts if not (len(m) > 5 and m[5] == "plus-suffixed")]
             for mut in muts:
-                mut_items.append((shape, cfg, mut, chans))
+                mchans = chans
+                if ctx.quick and len(mut) > 5 and mut[5].startswith("plus-"):
+                    mchans = [c for c in chans if c not in SUFFIXED_QUICK_SKIP]
+                mut_items.append((shape, cfg, mut, mchans))
             # used-parser family: the base, every required key removed / nulled and the plain foreign key at every node
             if mode != "full" or (ctx.quick and shape in USED_QUICK_SKIP):
                 continue  # the keys of a required-only base are a subset of those of the full base of the same variant
